@@ -200,20 +200,27 @@ def judge(res: Result, case, rec):
     # (f) a session is only left for a reason: since it was established, something other than valid traffic must have happened
     BENIGN = {'ka', 'update', 'refresh', 'silence-short', 'silence-read-timeout', 'split-message'}
     cause = True
+    sticky = False
     est_at = None
     hold = min(case['config'].get('hold', 90), min([st[1].get('hold', 90) for st in case['steps'] if st[0] in ('open', 'establish') and len(st) > 1 and isinstance(st[1], dict)] or [90]))
     for e in ev:
         k = e['kind']
         if k == 'step' and e.get('op') in ('eof', 'rst', 'api', 'reload', 'reload_changed', 'shutdown', 'connect', 'policy', 'open'):
             cause = True
+        if k == 'step' and e.get('op') in ('api', 'reload', 'reload_changed', 'shutdown'):
+            sticky = True  # a teardown / re-establishment which was asked for may be carried out later, on the next session too
         if k == 'mark' and e.get('name', '').startswith('inject:') and e['name'].split(':')[2] not in BENIGN:
             cause = True
+        if k == 'mark' and e.get('name', '').endswith(':ka') and hold == 0:
+            cause = True  # RFC 4271 4.4: with a hold time of zero KEEPALIVEs MUST NOT be sent; ExaBGP ends such a session (2/6) on purpose
         if k == 'fsm' and e['dst'] == 'ESTABLISHED':
             cause, est_at = False, e['t']
         if k == 'fsm' and e['src'] == 'ESTABLISHED' and est_at is not None:
             t = e['t']
             last_tx = max([tt for s_ in rec['sessions'] for tt, ln, ty in s_['tx'] if tt <= t] or [0.0])
             expired = hold > 0 and t - last_tx > hold - 0.01
+            if sticky:
+                cause, sticky = True, False
             if not cause and not expired:
                 heard = sorted({ty for s_ in rec['sessions'] for tt, ln, ty in s_['tx'] if est_at - 0.001 <= tt <= t})
                 res.violation('C05/left-established-without-cause', f'ESTABLISHED left {t - est_at:.3f}s after it was reached although the peer only sent valid messages (types {heard}), the last one {t - last_tx:.3f}s before (hold time {hold}), and nobody asked for it', dict(wit, event=e, trace=trace[-8:]), 'no-spontaneous-loss')
